@@ -157,7 +157,31 @@ type buffers struct {
 	mbs  []block.MiniBlock
 	ptrs []*block.MiniBlock
 	cnt  []int
+	enc  []byte
 }
+
+type combo struct{ si, ri, ti int }
+
+// allCombos: 4 senders x 4 receivers x 2 types. coreCombos: one representative of every
+// field width (0,3,6,9,12,15 bytes) plus both 5-byte identifiers with both types; used for
+// the miniblock counts where the full product would be too slow (thorough tier only).
+var allCombos, coreCombos []combo
+
+func init() {
+	for si := range shardIDs {
+		for ri := range shardIDs {
+			for ti := range mbTypes {
+				allCombos = append(allCombos, combo{si, ri, ti})
+			}
+		}
+	}
+	coreCombos = []combo{{0, 0, 0}, {0, 1, 0}, {1, 1, 0}, {0, 2, 1}, {1, 2, 1}, {2, 2, 0}, {2, 2, 1}, {3, 3, 1}, {2, 3, 1}}
+}
+
+var quickTier bool
+
+// fullFields: the miniblock counts encoded with the full field product.
+func fullFields(m int) bool { return quickTier || m <= 300 || m%64 == 0 }
 
 var oneHash = make([]byte, 32)
 var allHashes [][]byte
@@ -179,6 +203,7 @@ func main() {
 	_ = logger.SetLogLevel("*:NONE")
 	mc.Main("C33", "exploration", func(c *mc.Ctx) {
 		marsh := &marshal.GogoProtoMarshalizer{}
+		quickTier = c.Quick()
 		limit := libp2p.VerifC33MaxSendBuffSize()
 		allHashes = make([][]byte, maxHashes+8)
 		for i := range allHashes {
@@ -303,6 +328,7 @@ func main() {
 			}
 			sort.Ints(ts)
 			evals := int64(0)
+			worst := map[int]int{}
 			for _, t := range ts {
 				for d := range distNames {
 					distribute(d, m, t, buf.cnt)
@@ -315,52 +341,64 @@ func main() {
 						c.Fatal("distribution %d lost hashes: %d != %d", d, off, t)
 					}
 					body := &block.Body{MiniBlocks: buf.ptrs[:m]}
-					for si, snd := range shardIDs {
-						for ri, rcv := range shardIDs {
-							for _, ty := range mbTypes {
-								for j := 0; j < m; j++ {
-									buf.mbs[j].SenderShardID = snd
-									buf.mbs[j].ReceiverShardID = rcv
-									buf.mbs[j].Type = ty
+					combos := coreCombos
+					if fullFields(m) {
+						combos = allCombos
+					}
+					for _, cb := range combos {
+						si, ri := cb.si, cb.ri
+						snd, rcv, ty := shardIDs[si], shardIDs[ri], mbTypes[cb.ti]
+						for j := 0; j < m; j++ {
+							buf.mbs[j].SenderShardID = snd
+							buf.mbs[j].ReceiverShardID = rcv
+							buf.mbs[j].Type = ty
+						}
+						fb := idBytes(snd) + idBytes(rcv)
+						if ty != 0 {
+							fb += 3
+						}
+						evals++
+						size := body.Size() // the generated size function Marshal itself allocates by
+						if (fb == 15 && si == 2 && ri == 2) || (fb == 6 && si == 1 && ri == 1) {
+							// extreme field widths: run the real encoder
+							var n int
+							var err error
+							if m <= 32 || m%1000 == 0 {
+								var enc []byte
+								enc, err = marsh.Marshal(body) // the production marshalizer
+								n = len(enc)
+							} else {
+								// the generated encoder Marshal() calls, into a reused buffer
+								if cap(buf.enc) < size {
+									buf.enc = make([]byte, size+size/8)
 								}
-								fb := idBytes(snd) + idBytes(rcv)
-								if ty != 0 {
-									fb += 3
-								}
-								evals++
-								size := body.Size() // the generated size function Marshal itself allocates by
-								// the real marshalizer on the extreme field widths (and on every case of a sparse set of m)
-								if (fb == 15 && si == 2 && ri == 2) || (fb == 6 && si == 1 && ri == 1) || m <= 64 || m%1000 == 0 {
-									enc, err := marsh.Marshal(body)
-									if err != nil {
-										c.Violation("marshal-error", err.Error(), nil)
-										continue
-									}
-									if len(enc) != size {
-										c.Violation("harness:Size()-differs-from-marshalled-length", map[string]interface{}{"m": m, "t": t, "size": size, "len": len(enc)}, nil)
-									}
-									size = len(enc)
-								}
-								accMu.Lock()
-								if over, ok := worstUnder[fb]; !ok || size-limit > over {
-									worstUnder[fb] = size - limit
-								}
-								accMu.Unlock()
-								if size <= limit {
-									continue
-								}
-								ff.note(fb, m)
-								detail := map[string]interface{}{
-									"miniblocks": m, "tx_hashes": t, "estimator_asked": tmaxs[t], "distribution": distNames[d],
-									"sender": shardNames[si], "receiver": shardNames[ri], "type": ty.String(),
-									"field_bytes_per_miniblock": fb, "encoded_body_bytes": size, "network_limit": limit, "estimator_limit": throttleMax,
-								}
-								if first, ok := knownFirstFailing[fb]; ok && m >= first {
-									c.ViolationR(knownSig, m, detail, nil)
-								} else {
-									c.ViolationR(fmt.Sprintf("accepted-body-over-network-limit:below-measured-threshold-or-unlisted-field-width(%d-field-bytes)", fb), m, detail, nil)
-								}
+								n, err = body.MarshalToSizedBuffer(buf.enc[:size])
 							}
+							if err != nil {
+								c.Violation("marshal-error", err.Error(), nil)
+								continue
+							}
+							if n != size {
+								c.Violation("harness:Size()-differs-from-marshalled-length", map[string]interface{}{"m": m, "t": t, "size": size, "len": n}, nil)
+							}
+							size = n
+						}
+						if over, ok := worst[fb]; !ok || size-limit > over {
+							worst[fb] = size - limit
+						}
+						if size <= limit {
+							continue
+						}
+						ff.note(fb, m)
+						detail := map[string]interface{}{
+							"miniblocks": m, "tx_hashes": t, "estimator_asked": tmaxs[t], "distribution": distNames[d],
+							"sender": shardNames[si], "receiver": shardNames[ri], "type": ty.String(),
+							"field_bytes_per_miniblock": fb, "encoded_body_bytes": size, "network_limit": limit, "estimator_limit": throttleMax,
+						}
+						if first, ok := knownFirstFailing[fb]; ok && m >= first {
+							c.ViolationR(knownSig, m, detail, nil)
+						} else {
+							c.ViolationR(fmt.Sprintf("accepted-body-over-network-limit:below-measured-threshold-or-unlisted-field-width(%d-field-bytes)", fb), m, detail, nil)
 						}
 					}
 					c.Nontrivial(fmt.Sprint(m, t, d)) // every (m,t,distribution) is encoded with 5-byte shard ids
@@ -370,6 +408,13 @@ func main() {
 				}
 			}
 			c.Eval(evals)
+			accMu.Lock()
+			for fb, w := range worst {
+				if over, ok := worstUnder[fb]; !ok || w > over {
+					worstUnder[fb] = w
+				}
+			}
+			accMu.Unlock()
 			c.Outcome(fmt.Sprint(len(ts)))
 		})
 
@@ -405,7 +450,7 @@ func main() {
 		} else {
 			c.Rule = fmt.Sprintf("every m in 1..%d (the largest miniblock count the estimator accepts) and %d", mMax, mMax+1)
 		}
-		c.Rule += "; per m the maximal accepted t for 3 ways of asking (fresh / accumulated counters / throttled) x 4 distributions x 4 sender ids x 4 receiver ids x 2 types; real marshalizer on the extreme field widths and on all cases of a sparse m set, the generated Size() elsewhere (checked equal wherever both run); plus all success/failure histories of the real throttler of length " + fmt.Sprint(depth) + "; non-trivial = a (m,t,distribution) encoded with 5-byte shard identifiers"
+		c.Rule += "; per m the maximal accepted t for 3 ways of asking (fresh / accumulated counters / throttled) x 4 distributions x fields (quick tier, m<=300 and every 64th m: 4 sender ids x 4 receiver ids x 2 types; other m: 9 combinations covering every field width 0,3,6,9,12,15 B and META/ALL with both types); encoded length = generated Size() (what Marshal allocates), and on the two extreme field widths the real encoder is run (production marshalizer for m<=32 and every 1000th m, the generated MarshalToSizedBuffer into a reused buffer otherwise) and must agree; plus all success/failure histories of the real throttler of length " + fmt.Sprint(depth) + "; non-trivial = a (m,t,distribution) encoded with 5-byte shard identifiers"
 		c.Bound = fmt.Sprintf("%d miniblock counts up to %d", len(ms), mMax+1)
 		c.Assumptions = append(c.Assumptions,
 			"'fits' = IsMaxBlockSizeWithoutThrottleReached / IsMaxBlockSizeReached returns false with the production limits (943 718 B; throttle 104 857..943 718); 'network limit' = p2p/libp2p maxSendBuffSize read from the code",
